@@ -234,6 +234,51 @@ func c19Run(c *ev.Ctx, k c19Case) {
 	}
 }
 
+// c19Reused classifies one certificate object again and again while its critical options are changed in between.
+func c19Reused(c *ev.Ctx, base c19Case, seq []string, inPlace bool) {
+	c.Eval()
+	base.Crit = seq[0]
+	cert := c19Cert(base)
+	for step, crit := range seq {
+		k := base
+		k.Crit = crit
+		if step > 0 {
+			fresh := c19Cert(k).CriticalOptions
+			if inPlace && cert.CriticalOptions != nil && fresh != nil {
+				for key := range cert.CriticalOptions {
+					delete(cert.CriticalOptions, key)
+				}
+				for key, v := range fresh {
+					cert.CriticalOptions[key] = v
+				}
+			} else {
+				cert.CriticalOptions = fresh
+			}
+		}
+		var got certutil.Type
+		var label string
+		var lerr error
+		if p := ev.Guard(func() { got = certutil.GetType(cert); label, lerr = certutil.Label(cert) }); p != "" {
+			c.Violation("C19:panic:"+ev.PanicSite(p), "panic: "+p, k)
+			return
+		}
+		want := c19Expect(k)
+		gotName, wantName := certutil.TypeLabel[got], c19TypeNames[want]
+		rep := map[string]any{"base": base, "option_states_in_order": seq[:step+1], "edited_in_place": inPlace}
+		if gotName != wantName {
+			c.Violation(fmt.Sprintf("C19:reused-object:type:want=%s:got=%s", orUnknown(wantName), orUnknown(gotName)),
+				fmt.Sprintf("one certificate object, critical options %v in this order: the last classification gives %q, the decision table says %q", seq[:step+1], orUnknown(gotName), orUnknown(wantName)), rep)
+			return
+		}
+		if want != "" {
+			if wl := wantName + "SSH-" + base.TransID; lerr != nil || label != wl {
+				c.Violation("C19:reused-object:label:"+want, fmt.Sprintf("one certificate object, critical options %v in this order: label %q err=%v, want %q", seq[:step+1], label, lerr, wl), rep)
+				return
+			}
+		}
+	}
+}
+
 func orUnknown(s string) string {
 	if s == "" {
 		return "unknown"
@@ -242,9 +287,18 @@ func orUnknown(s string) string {
 }
 
 func checkC19(c *ev.Ctx) {
-	c.Rule("complete product: 4 flags x touchPolicy{-1,0,1,2,3,4,7} x usage{0,1} x ver{0,1,2} x critical option{absent,nil map,empty,set,other keys} x principal lists{nil,[],[a],[a,b],['']} x transID{'',hex,utf8}, plus undecodable KeyID catalogue (incl. every required member absent while another one is repeated), the nil certificate, and KeyIDs with one or two null-valued members (36 null sets x 7 bases) each classified right after each of 8 predecessors; each compared with a decision table written from the statement. non-trivial = decodable KeyID selecting a known type; distinct by (flags,touch,critical option)")
+	c.Rule("complete product: 4 flags x touchPolicy{-1,0,1,2,3,4,7} x usage{0,1} x ver{0,1,2} x critical option{absent,nil map,empty,set,other keys} x principal lists{nil,[],[a],[a,b],['']} x transID{'',hex,utf8}, plus undecodable KeyID catalogue (incl. every required member absent while another one is repeated), the nil certificate, 960 sequences on ONE certificate object whose critical options change between calls (every ordered pair of option states, new map / edited in place), and KeyIDs with one or two null-valued members (36 null sets x 7 bases) each classified right after each of 8 predecessors; each compared with a decision table written from the statement. non-trivial = decodable KeyID selecting a known type; distinct by (flags,touch,critical option)")
 	c.Assume("KeyID texts are built by the harness with encoding/json from a map, so 'decodes' is known by construction", "cert types are compared through their public label table")
 	if c.ReplayCase != nil {
+		var ru struct {
+			Base    c19Case  `json:"base"`
+			Seq     []string `json:"option_states_in_order"`
+			InPlace bool     `json:"edited_in_place"`
+		}
+		if json.Unmarshal(c.ReplayCase, &ru); len(ru.Seq) > 0 {
+			c19Reused(c, ru.Base, ru.Seq, ru.InPlace)
+			return
+		}
 		var k c19Case
 		json.Unmarshal(c.ReplayCase, &k)
 		c19Run(c, k)
@@ -322,6 +376,33 @@ func checkC19(c *ev.Ctx) {
 		}
 	}
 	c19Run(c, c19Case{NilCert: true, Prins: []string{"a"}})
+	// ONE certificate object whose critical options (and KeyID) change between calls, as a caller editing a certificate
+	// before re-signing would do: every ordered pair of option states, by assigning a new map and by editing the map in
+	// place; the answer is the one for what the object says NOW
+	{
+		states := []string{"absent", "set", "empty", "nilmap", "other"}
+		nr := 0
+		for _, ff := range bools {
+			for _, hw := range bools {
+				for _, nc := range bools {
+					for _, touch := range []int{1, 2, 3} {
+						for _, inPlace := range bools {
+							for _, a := range states {
+								for _, b := range states {
+									if a == b {
+										continue
+									}
+									c19Reused(c, c19Case{FF: ff, HW: hw, NC: nc, Touch: touch, Ver: 1, TransID: "aa11", Prins: []string{"a"}}, []string{a, b, a}, inPlace)
+									nr++
+								}
+							}
+						}
+					}
+				}
+			}
+		}
+		c.Set("reused_object_sequences", nr)
+	}
 	// null-valued members (legal JSON, the member is present): every single null and every pair of nulls over a base of
 	// each type, each one classified right after every predecessor of a representative set, so that a value inherited from
 	// the previous certificate (pooled or cached decode state) changes the answer
